@@ -10,6 +10,7 @@ import (
 	"net/http/httptest"
 	"os"
 	"path/filepath"
+	"strings"
 	"sync"
 	"sync/atomic"
 	"time"
@@ -462,6 +463,25 @@ func (w *srvWorld) checkPublic(m *srvModel) (sig, what string) {
 		code, rr := w.recentReports(pk)
 		if code != 200 {
 			return "public/recent-status", fmt.Sprintf("recent-reports for id %d -> %d", id, code)
+		}
+		// the answer is signed by the server over the JSON encoding of the reports
+		if rj, err := json.Marshal(rr.Reports); err != nil || !refVerify(w.Srv.Pub, rj, rr.Signature) {
+			return "public/recent-signature", fmt.Sprintf("recent-reports for id %d does not verify under the server key", id)
+		}
+		// the key parameter is 64 hexadecimal digits (either case); anything else names no device
+		hexKey := fmt.Sprintf("%x", pk[:])
+		for _, q := range []string{hexKey + "00", "0x" + hexKey, hexKey[:62], hexKey + "%20", "%20" + hexKey, hexKey[:63], hexKey + "&publicKey=" + hexKey[:62], strings.ToUpper(hexKey)} {
+			code, body := w.httpDo(http.MethodGet, "/api/v1/recent-reports?publicKey="+q, nil)
+			wantOK := q == strings.ToUpper(hexKey) || strings.HasPrefix(q, hexKey+"&")
+			if (code == 200) != wantOK {
+				return "public/recent-key-grammar", fmt.Sprintf("recent-reports?publicKey=%s answered %d", q, code)
+			}
+			if code == 200 {
+				var r2 server.RecentReportsResponse
+				if json.Unmarshal(body, &r2) != nil || r2.Reports != rr.Reports {
+					return "public/recent-key-grammar", fmt.Sprintf("recent-reports?publicKey=%s answered with other data than the plain spelling", q)
+				}
+			}
 		}
 		for i := 0; i < mWindow; i++ {
 			want := m.Slots[id][m.Offset+uint32(i)].value()
